@@ -426,6 +426,22 @@ def rule_graphs(ctx):
             "one node per private predicate of the program: %s" % [r["tests"] for r in nodes])
     ok = len(edges) == 1 and edges[0]["nest"][:1] == [RULES_] and len(edges[0]["nest"]) == 2 and "Body::predicates" in repr(edges[0]["nest"][1]) and "positive_predicates" not in repr(edges[0]["nest"])
     ctx.add("GRAPH", "private:edges-all-signs", ok and edges[0]["nest"] == [RULES_, BA], ctx.site(p), "edges use body.predicates() (every sign), not only positive occurrences: %s" % [sym.pretty(n)[:120] for r in edges for n in r["nest"][1:]])
+    def _unfilter(tests):
+        """`let Some(p) = opt.filter(|p| keep(p)) else ..`: the option is Some and its value passes the filter"""
+        out, ren = [], {}
+        for t_ in tests:
+            if t_[0] == "is" and t_[2] == "Option::Some" and isinstance(t_[1], tuple) and t_[1][:2] == ("call", "Option::filter") and len(t_[1][2]) == 2 \
+                    and isinstance(t_[1][2][1], tuple) and t_[1][2][1][:1] == ("closure",) and len(t_[1][2][1][1]) == 1:
+                o_, cl_ = t_[1][2]
+                val_ = ("proj", o_, (("Option::Some", "0"),))
+                ren[("proj", t_[1], (("Option::Some", "0"),))] = val_
+                out.append(("is", o_, "Option::Some"))
+                out.extend(leaves.cond_tests(leaves.norm(leaves._apply(cl_, val_)), True) or [("dead",)])
+            else:
+                out.append(t_)
+        return [leaves.replace(t_, ren) for t_ in out]
+    if len(edges) == 1:
+        edges[0]["tests"] = _unfilter(edges[0]["tests"])
     ok = len(edges) == 1 and set(edges[0]["tests"]) == {has_head, priv(HP), priv(("each", BA))} and len(edges[0]["tests"]) == 3
     ctx.add("GRAPH", "private:edges-restricted", ok, ctx.site(p), "an edge is added exactly when the rule has a head predicate and head and body predicate are both private: %s" % ([r["tests"] for r in edges],))
     # regularity
